@@ -133,7 +133,7 @@ func init() {
 		Assumptions: []string{"the verdict is purely metamorphic (no reference semantics involved); the reference trace only supplies coverage counts"},
 		Batches:     func(t string) int { return pick(t, 4, 16) },
 		Floor:       func(t string) int { return pick(t, 1500, 30000) },
-		TimeoutSec:  func(t string) int { return pick(t, 900, 3600) },
+		TimeoutSec:  func(t string) int { return pick(t, 300, 3600) },
 		Prepare:     gramPrepare("C13", func(t string) int { return pick(t, 90, 220) }, c13Opts, nil, false),
 		Child:       c13Child,
 	})
